@@ -1465,6 +1465,7 @@ type FunctionNode struct {
 func (n *FunctionNode) MarshalJSON() ([]byte, error) {
 	props := JSONNode{}.
 		Type("func").
+		Set("func", n.Func).
 		SetFunctionType("functionType", n.Type).
 		Set("args", n.Args)
 	return json.Marshal(&props)
@@ -1473,6 +1474,10 @@ func (n *FunctionNode) MarshalJSON() ([]byte, error) {
 func (n *FunctionNode) unmarshal(props JSONNode) error {
 	err := props.CheckTypeOf("func")
 	if err != nil {
+		return err
+	}
+
+	if n.Func, err = props.String("func"); err != nil {
 		return err
 	}
 
